@@ -18,66 +18,79 @@ Definition robs (ret : list val) (s : reader) : val :=
 Definition wobs (ret : list val) (s : writer) : val :=
   VL [VL ret; VZ (wtotal s); VZ (blen (wout s)); VZ (blen (wbuf s))].
 
-(* one reader op: None = malformed op *)
-Definition reader_step (op : val) (s : reader) : option (val * reader) :=
+(* one reader op on (reader, b.lastRuneSize): None = malformed op.  wt: the underlying reader is an io.WriterTo *)
+Definition rstate : Type := reader * Z.
+Definition lrs_after (s s' : reader) (lrs : Z) : Z := if rtotal s' =? rtotal s then lrs else -1.
+Definition reader_step (wt : bool) (op : val) (st : rstate) : option (val * rstate) :=
+  let '(s, lrs) := st in
   match op with
   | VL [VZ 1; VZ n] =>
     if n <? 0 then None   (* make([]byte, n) with n < 0 does not exist *)
-    else let '(d, e, s') := rd_read n s in Some (robs [VB d; VZ e] s', s')
-  | VL [VZ 2] => let '(c, e, s') := rd_byte s in Some (robs [VZ c; VZ e] s', s')
-  | VL [VZ 3] => let '(e, s') := rd_unread s in Some (robs [VZ e] s', s')
-  | VL [VZ 4; VZ delim] => let '(d, e, s') := rd_slice delim s in Some (robs [VB d; VZ e] s', s')
-  | VL [VZ 5] => let '(d, pre, e, s') := rd_line s in Some (robs [VB d; vbool pre; VZ e] s', s')
-  | VL [VZ 6; VZ n] => let '(d, e, s') := rd_peek n s in Some (robs [VB d; VZ e] s', s')
-  | VL [VZ 8; VZ delim] => let '(d, e, s') := rd_bytes delim s in Some (robs [VB d; VZ e] s', s')
-  | VL [VZ 9] => let '(d, e, s') := rd_writeto s in Some (robs [VB d; VZ (blen d); VZ e] s', s')
+    else let '(d, e, s') := rd_read n s in Some (robs [VB d; VZ e] s', (s', lrs_after s s' lrs))
+  | VL [VZ 2] => let '(c, e, s') := rd_byte s in Some (robs [VZ c; VZ e] s', (s', -1))
+  | VL [VZ 3] => let '(e, s') := rd_unread s in Some (robs [VZ e] s', (s', -1))
+  | VL [VZ 4; VZ delim] => let '(d, e, s') := rd_slice delim s in Some (robs [VB d; VZ e] s', (s', lrs_after s s' lrs))
+  | VL [VZ 5] =>
+    let '(d, pre, e, s') := rd_line s in
+    let '(line0, _, _) := rd_slice 10 s in
+    Some (robs [VB d; vbool pre; VZ e] s', (s', match line0 with [] => lrs | _ => -1 end))
+  | VL [VZ 6; VZ n] => let '(d, e, s') := rd_peek n s in Some (robs [VB d; VZ e] s', (s', lrs))
+  | VL [VZ 8; VZ delim] => let '(d, e, s') := rd_bytes delim s in Some (robs [VB d; VZ e] s', (s', lrs_after s s' lrs))
+  | VL [VZ 9] =>
+    let '(d, e, s') := if wt then rd_writeto_wt s else rd_writeto s in
+    Some (robs [VB d; VZ (blen d); VZ e] s', (s', -1))
+  | VL [VZ 10] => let '(r, size, e, s', lrs') := rd_rune s in Some (robs [VZ r; VZ size; VZ e] s', (s', lrs'))
+  | VL [VZ 11] => let '(e, s', lrs') := rd_unread_rune s lrs in Some (robs [VZ e] s', (s', lrs'))
   | _ => None
   end.
-Fixpoint reader_run (ops : list val) (s : reader) {struct ops} : option (list val) :=
+Fixpoint reader_run (wt : bool) (ops : list val) (st : rstate) {struct ops} : option (list val) :=
   match ops with
   | [] => Some []
   | op :: r =>
-    match reader_step op s with
+    match reader_step wt op st with
     | None => None
-    | Some (o, s') => match reader_run r s' with Some os => Some (o :: os) | None => None end
+    | Some (o, st') => match reader_run wt r st' with Some os => Some (o :: os) | None => None end
     end
   end.
 
-Definition writer_step (op : val) (s : writer) : option (val * writer) :=
+Definition writer_step (rf : bool) (op : val) (s : writer) : option (val * writer) :=
   match op with
+  | VL [VZ 7; VZ r] => let '(n, e, s') := w_write_rune r s in Some (wobs [VZ n; VZ e] s', s')
   | VL [VZ 1; VB d] => let '(n, e, s') := w_write d s in Some (wobs [VZ n; VZ e] s', s')
   | VL [VZ 2; VZ c] => let '(e, s') := w_write_byte c s in Some (wobs [VZ e] s', s')
   | VL [VZ 3; VB d] => let '(n, e, s') := w_write_string d s in Some (wobs [VZ n; VZ e] s', s')
   | VL [VZ 4] => let '(e, s') := w_flush s in Some (wobs [VZ e] s', s')
   | VL [VZ 6; src] =>
     match dec_script src with
-    | Some sc => let '(n, e, s') := w_readfrom sc s in Some (wobs [VZ n; VZ e] s', s')
+    | Some sc => let '(n, e, s') := if rf then w_readfrom_rf sc s else w_readfrom sc s in Some (wobs [VZ n; VZ e] s', s')
     | None => None
     end
   | _ => None
   end.
-Fixpoint writer_run (ops : list val) (s : writer) {struct ops} : option (list val) :=
+Fixpoint writer_run (rf : bool) (ops : list val) (s : writer) {struct ops} : option (list val) :=
   match ops with
   | [] => Some [VB (wout s)]
   | op :: r =>
-    match writer_step op s with
+    match writer_step rf op s with
     | None => None
-    | Some (o, s') => match writer_run r s' with Some os => Some (o :: os) | None => None end
+    | Some (o, s') => match writer_run rf r s' with Some os => Some (o :: os) | None => None end
     end
   end.
 
 Definition run_C22 (i : val) : val :=
   match i with
-  | VL [VZ 1; VZ cap; src; VL ops] =>
-    match dec_script src with
-    | Some sc => match reader_run ops (new_reader cap sc) with Some os => VL os | None => VErr 0 end
-    | None => VErr 0
-    end
-  | VL [VZ 2; VZ cap; sink; VL ops] =>
-    match dec_sink sink with
-    | Some sk => match writer_run ops (new_writer cap sk) with Some os => VL os | None => VErr 0 end
-    | None => VErr 0
-    end
+  | VL [VZ tag; VZ cap; src; VL ops] =>
+    if (tag =? 1) || (tag =? 3) then      (* 3: the source is an io.WriterTo *)
+      match dec_script src with
+      | Some sc => match reader_run (tag =? 3) ops (new_reader cap sc, -1) with Some os => VL os | None => VErr 0 end
+      | None => VErr 0
+      end
+    else if (tag =? 2) || (tag =? 4) then (* 4: the sink is an io.ReaderFrom *)
+      match dec_sink src with
+      | Some sk => match writer_run (tag =? 4) ops (new_writer cap sk) with Some os => VL os | None => VErr 0 end
+      | None => VErr 0
+      end
+    else VErr 0
   | _ => VErr 0
   end.
 Definition agree_C22 (i o : val) : bool := val_eqb (run_C22 i) o.
@@ -108,6 +121,12 @@ Definition reader_op_ok (stream : bytes) (pos pos' : Z) (op : val) (ret : list v
   | VL [VZ 6; VZ n], [VB d; VZ e] =>
     slice_at stream pos d && (pos' =? pos) && (if e =? 0 then blen d =? n else blen d <? Z.max n 1)
   | VL [VZ 9], [VB d; VZ n; VZ e] => slice_at stream pos d && (pos' =? pos + blen d) && (n =? blen d)
+  | VL [VZ 10], [VZ r; VZ size; VZ e] =>
+    (* ReadRune: the size bytes at the position decode to exactly (r, size) *)
+    if e =? 0 then (1 <=? size) && (size <=? 4) && (pos' =? pos + size) && (pos' <=? blen stream) &&
+                   (let '(r', size') := decode_rune (sub stream pos pos') in (r' =? r) && (size' =? size))
+    else (pos' =? pos) && (size =? 0)
+  | VL [VZ 11], [VZ e] => if e =? 0 then (1 <=? pos - pos') && (pos - pos' <=? 4) else pos' =? pos
   | _, _ => false
   end.
 Fixpoint prop_reader (stream : bytes) (pos : Z) (ops obs : list val) {struct ops} : bool :=
@@ -131,6 +150,9 @@ Definition writer_op_acc (op : val) (ret : list val) : option (bytes * Z * bool)
     if (0 <=? n) && (n <=? blen d) && ((n =? blen d) || negb (e =? 0)) then Some (firstn (Z.to_nat n) d, e, false) else None
   | VL [VZ 2; VZ c], [VZ e] => Some ((if e =? 0 then [c] else []), e, false)
   | VL [VZ 4], [VZ e] => Some ([], e, true)
+  | VL [VZ 7; VZ r], [VZ n; VZ e] =>
+    let enc := if r <? 128 then [r mod 256] else encode_rune r in
+    if (0 <=? n) && (n <=? blen enc) && ((n =? blen enc) || negb (e =? 0)) then Some (firstn (Z.to_nat n) enc, e, false) else None
   | VL [VZ 6; src], [VZ n; VZ e] =>
     match dec_script src with
     | Some sc => let all := concat (map fst sc) in
@@ -156,12 +178,14 @@ Fixpoint prop_writer (acc : bytes) (sunk : Z) (ops obs : list val) {struct ops} 
 
 Definition prop_C22 (i o : val) : bool :=
   match i, o with
-  | VL [VZ 1; VZ cap; src; VL ops], VL obs =>
-    match dec_script src with
-    | Some sc => prop_reader (concat (map fst sc)) 0 ops obs
-    | None => false
-    end
-  | VL [VZ 2; VZ cap; sink; VL ops], VL obs => prop_writer [] 0 ops obs
+  | VL [VZ tag; VZ cap; src; VL ops], VL obs =>
+    if (tag =? 1) || (tag =? 3) then
+      match dec_script src with
+      | Some sc => prop_reader (concat (map fst sc)) 0 ops obs
+      | None => false
+      end
+    else if (tag =? 2) || (tag =? 4) then prop_writer [] 0 ops obs
+    else false
   | _, _ => false
   end.
 
